@@ -300,6 +300,26 @@ Proof.
       * intros Hd. specialize (Hd2 Hd). rewrite zlen_app. lia.
 Qed.
 
+Lemma fold_total_len : forall (ss : list seg) t,
+  fold_left (fun total p => total + zlen p) ss t = t + zlen (List.concat ss).
+Proof.
+  induction ss as [|s r IH]; intros t; cbn [fold_left List.concat].
+  - rewrite zlen_nil. lia.
+  - rewrite IH, zlen_app. lia.
+Qed.
+
+Lemma peekb_limit_cases b n (bs : list (list Z)) : inv b ->
+  (peekb_limit b n (map (map Lit) bs) = Some MaxInt32 /\ (n <= 0 \/ n = MaxInt32)) \/
+  (peekb_limit b n (map (map Lit) bs) = None /\ 0 < n /\ n <> MaxInt32 /\ zlen (List.concat bs) + zlen (content b) < n) \/
+  (peekb_limit b n (map (map Lit) bs) = Some n /\ 0 < n <= zlen (List.concat bs) + zlen (content b) /\ n <> MaxInt32).
+Proof.
+  intros (_ & Hb & _). unfold peekb_limit, Buffered. rewrite fold_total_len, Hb.
+  rewrite <- concat_map, zlen_map.
+  destruct ((n <=? 0) || (n =? MaxInt32)) eqn:E.
+  - left. split; auto. lia.
+  - destruct (n >? zlen (content b) + zlen (List.concat bs)) eqn:E2; [right; left|right; right]; splits; auto; lia.
+Qed.
+
 Lemma PeekWithBytes_spec b n bs : inv b ->
   fifo_step id (content b) (BPeekB n bs) (OutPeek (PeekWithBytes b n (map (map Lit) bs))) (content b).
 Proof.
@@ -321,7 +341,7 @@ Proof.
       rewrite Et. cbn [obind]. exists (acc ++ t). split; auto.
       rewrite concat_app, Hc, Hct. rewrite ztake_all by lia. rewrite ztake_app_r by lia.
       do 2 f_equal. lia. }
-  destruct (peek_limit_cases b n Hi) as [(E & H)|[(E & H1 & H2 & H3)|(E & H1 & H2)]]; rewrite E.
+  destruct (peekb_limit_cases b n bs Hi) as [(E & H)|[(E & H1 & H2 & H3)|(E & H1 & H2)]]; rewrite E.
   - destruct (Hmain MaxInt32) as (bss & Eb & Hc); [unfold MaxInt32; lia|].
     rewrite Eb. apply FS_PeekBAll; auto.
   - now apply FS_PeekBShort.
